@@ -38,16 +38,16 @@ def run_impl(case):
         d = eamlib.direct_args(m)
         if fmt == "setfl_fs":
             if how == "class":
-                SetFL_FS_EAMTabulation(*args).write(s)
+                eamlib.write_second_time(SetFL_FS_EAMTabulation(*args), s)
             else:
                 writeSetFLFinnisSinclair(m["nrho"], float(Fr(d["drho"])), m["nr"], float(Fr(d["dr"])), eams, pots, s)
         elif fmt == "DL_POLY_EAM_fs":
             if how == "class":
-                TABEAM_FinnisSinclair_EAMTabulation(*args).write(s)
+                eamlib.write_second_time(TABEAM_FinnisSinclair_EAMTabulation(*args), s)
             else:
                 writeTABEAMFinnisSinclair(m["nrho"], float(Fr(d["drho"])), m["nr"], float(Fr(d["dr"])), eams, pots, s)
         else:
-            Excel_FinnisSinclair_EAMTabulation(*args).write(s)
+            eamlib.write_second_time(Excel_FinnisSinclair_EAMTabulation(*args), s)
         return "ok", s.getvalue()
     cfg = eamlib.cfg_text(m, fmt)
     if how == "cli":
